@@ -23,42 +23,92 @@ def pass_classes():
     return out
 
 
-def build_traces(ctx, nprog, levels=("2",), seqs=0):
-    """Generate programs, run single passes / pipelines / random pass sequences; yield (prog info, traces)."""
+def int_vectors(ptys, rng, n):
+    """Argument vectors (Python ints) for IR parameter types: boundaries + seeded random."""
+    bits = {"i8": 8, "u8": 8, "i16": 16, "u16": 16, "i32": 32, "u32": 32, "i64": 64, "u64": 64, "ptr": 64}
+    vecs = []
+    for k in range(n):
+        v = []
+        for t in ptys:
+            b = bits[t]
+            lo, hi = (-(1 << (b - 1)), (1 << (b - 1)) - 1) if t[0] == "i" else (0, (1 << b) - 1)
+            c = rng.random()
+            if k < 2:
+                x = k
+            elif c < 0.3:
+                x = rng.choice([lo, hi, -1 if lo < 0 else hi, hi // 2, 2, 3, 5, 7])
+            elif c < 0.7:
+                x = rng.randrange(max(lo, -16), min(hi, 17))
+            else:
+                x = rng.randrange(lo, hi + 1)
+            v.append(x)
+        vecs.append(v)
+    return vecs
+
+
+def traces_for(key, make, classes, levels, seqs, prng):
+    traces = []
+    for name, cls in classes:
+        traces.append(optcorpus.run_trace("%s:%s" % (key, name), make, "single", pass_cls=cls))
+    for lv in levels:
+        traces.append(optcorpus.run_trace("%s:O%s" % (key, lv), make, "pipeline", level=lv))
+    for k in range(seqs):
+        seq = [prng.choice(classes) for _ in range(prng.randrange(2, 7))]
+        traces.append(optcorpus.run_trace("%s:seq:%s" % (key, "+".join(n[:4] for n, _ in seq)), make, "seq",
+                                          pass_seq=[c for _, c in seq]))
+    return traces
+
+
+def build_traces(ctx, nprog, levels=("2",), seqs=0, nir=None):
+    """Generate programs (C through c_to_ir, and IR built directly by harness/irgen.py), run single passes /
+    pipelines / random pass sequences on fresh copies, return the corpus with all traces."""
+    import random
+
+    from harness import irgen
+
     rng = ctx.rng
     classes = pass_classes()
     out = []
+    nvec = 6 if ctx.tier == "quick" else 10
     for pi in range(nprog):
         seed = rng.randrange(1 << 30)
-        import random
-
         prng = random.Random(seed)
         gen = absprog.Gen(prng, max_funcs=3, max_stmts=6, max_depth=3)
         prog = gen.program()
         src = absprog.render_c(prog)
-        key = "p%d" % seed
+        key = "c%d" % seed
 
         def make(src=src):
             return optcorpus.compile_c(src, "x86_64")
 
         try:
             make()
-        except Exception as e:  # front-end problem: C28's business, not C02's
-            ctx.cov.setdefault("frontend_rejected", 0)
-            ctx.cov["frontend_rejected"] += 1
+        except Exception:  # front-end problem: C28's business, not C02's
+            ctx.cov["frontend_rejected"] = ctx.cov.get("frontend_rejected", 0) + 1
             continue
-        traces = []
-        for name, cls in classes:
-            traces.append(optcorpus.run_trace("%s:%s" % (key, name), make, "single", pass_cls=cls))
-        for lv in levels:
-            traces.append(optcorpus.run_trace("%s:O%s" % (key, lv), make, "pipeline", level=lv))
-        for k in range(seqs):
-            seq = [prng.choice(classes) for _ in range(prng.randrange(2, 7))]
-            traces.append(optcorpus.run_trace("%s:seq:%s" % (key, "+".join(n[:4] for n, _ in seq)), make, "seq",
-                                              pass_seq=[c for _, c in seq]))
-        f, vecs = absprog.arg_vectors(prog, prng, 6 if ctx.tier == "quick" else 10)
-        out.append({"key": key, "seed": seed, "src": src, "prog": prog, "traces": traces, "main": f, "vecs": vecs,
+        traces = traces_for(key, make, classes, levels, seqs, prng)
+        f, vecs = absprog.arg_vectors(prog, prng, nvec)
+        out.append({"key": key, "seed": seed, "src": src, "traces": traces, "fn": f["n"], "vecs": vecs,
                     "ext": optcorpus.ext_stubs(prog, prng)})
+    for pi in range(nprog if nir is None else nir):
+        seed = rng.randrange(1 << 30)
+        prng = random.Random(seed)
+        key = "ir%d" % seed
+
+        def make(seed=seed):
+            return irgen.gen_module(random.Random(seed))[0]
+
+        try:
+            _, info = irgen.gen_module(random.Random(seed))
+        except Exception as e:
+            ctx.cov["irgen_failed"] = ctx.cov.get("irgen_failed", 0) + 1
+            continue
+        prng.random()
+        traces = traces_for(key, make, classes, levels, seqs, prng)
+        vecs = int_vectors(info["params"], prng, nvec)
+        ext = [{"name": n, "rets": [project_ir.limbs(prng.randrange(-5, 40), 4) for _ in range(6)]} for n in info["externs"]]
+        out.append({"key": key, "seed": seed, "src": "harness/irgen.py gen_module(random.Random(%d))" % seed,
+                    "traces": traces, "fn": info["main"], "vecs": vecs, "ext": ext})
     return out
 
 
@@ -90,7 +140,7 @@ def ir_cases(ctx, corpus):
                 ctx.cov["unchanged_traces"] = ctx.cov.get("unchanged_traces", 0) + 1
         if len(mods) == 1:
             continue
-        fn = p["main"]["n"]
+        fn = p["fn"]
         fi = [f for f in mods[0]["funcs"] if f["name"] == fn]
         if not fi:
             continue
